@@ -164,9 +164,9 @@ def closing(f):
 CATALOGUE = {}
 
 
-def spec(name, module, seed=None, value=True, raises=False):
+def spec(name, module, seed=None, value=True, raises=False, heavy=False):
     def deco(builder):
-        CATALOGUE[name] = dict(builder=builder, module=module, seed=seed, value=value, raises=raises)
+        CATALOGUE[name] = dict(builder=builder, module=module, seed=seed, value=value, raises=raises, heavy=heavy)
         return builder
     return deco
 
@@ -343,6 +343,25 @@ def _():
     return S(pyrepseq.pc_n, [3, 1, 2, 5])
 
 
+@spec("count_arrays", "stats")
+def _():
+    # integer and float64 count arrays handed to every count-based function (in-place arithmetic would show)
+    return S(lambda a, b, c: [pyrepseq.pc_n(a), pyrepseq.pc_n(b), pyrepseq.varpc_n(b), pyrepseq.stdpc_n(b), pyrepseq.pc_n(b),
+                              pyrepseq.chao1(c), pyrepseq.var_chao1(c), pyrepseq.chao2(c, 2), pyrepseq.var_chao2(c, 2)],
+             np.array([3, 1, 2, 5]), np.array([3.0, 1.0, 2.0, 5.0]), np.array([5, 2, 1]))
+
+
+@spec("pc_conditional_weight_array", "stats")
+def _():
+    return S(lambda d, w: [pyrepseq.pc_conditional(d, "g", "s", group_weights=w), pyrepseq.renyi2_entropy(d, "s", by="g", group_weights=w)],
+             STATDF(), np.array([1.0, 2.0]))
+
+
+@spec("subsample_array_seeded", "stats", seed=14)
+def _():
+    return S(pyrepseq.subsample, np.array([3, 0, 2, 5, 1]), 4)
+
+
 @spec("pc_joint", "stats")
 def _():
     return S(pyrepseq.pc_joint, STATDF(), ["s", "t"])
@@ -507,6 +526,18 @@ def _():
     return S(pyrepseq.hierarchical_clustering, TCR())
 
 
+@spec("hierarchical_two_sequences_default", "distance")
+def _():
+    return S(pyrepseq.hierarchical_clustering, ["CASSLGQ", "CASSLAQ"])
+
+
+@spec("hierarchical_large_default", "distance", heavy=True)
+def _():
+    # more than a thousand sequences in one call
+    seqs = ["CAS" + "ACDEFGHIKL"[i % 10] + "ACDEFGHIKL"[(i // 10) % 10] + "ACDEFGHIKL"[(i // 100) % 10] + "QF" * (1 + i // 1000) for i in range(1003)]
+    return S(pyrepseq.hierarchical_clustering, seqs, post=lambda r: [canon_value(np.asarray(r[0])[:5]), int(np.asarray(r[1]).max())])
+
+
 @spec("hierarchical_kws", "distance")
 def _():
     return S(pyrepseq.hierarchical_clustering, TCR(), linkage_kws=dict(method="single"), cluster_kws=dict(t=3, criterion="maxclust"))
@@ -534,9 +565,75 @@ def _():
     return S(lambda a: [TM.BetaCdrLevenshtein().calc_pdist_vector(a), TM.Cdr3Levenshtein(beta_weight=4).calc_pdist_vector(a)], TCR())
 
 
+@spec("tcr_metric_objects_coexist", "metric")
+def _():
+    def f(a):
+        m1 = TM.Cdr3Levenshtein()
+        m2 = TM.Cdr3Levenshtein(alpha_weight=3, substitution_weight=2)
+        m3 = TM.CdrLevenshtein(cdr1_weight=5)
+        return [m1.calc_pdist_vector(a), m3.calc_pdist_vector(a), m2.calc_pdist_vector(a), m1.calc_pdist_vector(a)]
+    return S(f, TCR())
+
+
+@spec("string_metric_objects_coexist", "metric")
+def _():
+    def f(a):
+        m1, m2 = WeightedLevenshtein(), WeightedLevenshtein(1, 2, 3)
+        return [m1.calc_pdist_vector(a), m2.calc_pdist_vector(a), Levenshtein().calc_pdist_vector(np.array(a))]
+    return S(f, SEQS())
+
+
 @spec("tcr_metric_bad_input_raises", "metric", raises=True)
 def _():
     return S(TM.AlphaCdr3Levenshtein().calc_cdist_matrix, ["CAVF"], TCR())
+
+
+# --- long-lived objects ---------------------------------------------------------
+# Created once when the catalogue is imported (i.e. first thing in a fresh interpreter) and used again and again between
+# other calls, as user code does with metric and database objects.
+PERSIST = {
+    "cdr3": TM.Cdr3Levenshtein(),
+    "cdr_weighted": TM.CdrLevenshtein(alpha_weight=2, cdr2_weight=3, insertion_weight=2),
+    "wlev": WeightedLevenshtein(1, 2, 3),
+    "lev": Levenshtein(),
+    "symdeldb": nn.SymdelDB(SEQS(), 2),
+    "lookupdb": nn.LookupDB(SEQS()),
+}
+
+
+@spec("persistent_tcr_metrics", "metric")
+def _():
+    return S(lambda a: [PERSIST["cdr3"].calc_pdist_vector(a), PERSIST["cdr_weighted"].calc_cdist_matrix(a, a.iloc[[1, 3]])], TCR())
+
+
+@spec("persistent_string_metrics", "metric")
+def _():
+    return S(lambda a, b: [PERSIST["wlev"].calc_cdist_matrix(a, b), PERSIST["lev"].calc_pdist_vector(a)], SEQS(), QUERIES())
+
+
+@spec("persistent_pcDelta_metric", "distance")
+def _():
+    return S(lambda a: pyrepseq.pcDelta(a, metric=PERSIST["cdr3"], bins=[0, 1, 2, 4, 30], normalize=False), TCR())
+
+
+@spec("persistent_symdeldb", "nn")
+def _():
+    return S(lambda q: PERSIST["symdeldb"].lookup(q), QUERIES(), post=triplets)
+
+
+@spec("persistent_symdeldb_hamming", "nn")
+def _():
+    return S(lambda q: PERSIST["symdeldb"].lookup(q, custom_distance="hamming"), QUERIES() + ["CASSLGQ"], post=triplets)
+
+
+@spec("persistent_lookupdb_k2", "nn")
+def _():
+    return S(lambda q: PERSIST["lookupdb"].lookup(q, max_edits=2), ["WWYY", "CASSLG"], post=triplets)
+
+
+@spec("persistent_lookupdb_k1", "nn")
+def _():
+    return S(lambda q: PERSIST["lookupdb"].lookup(q, max_edits=1), ["WWYY", "CASSLG"], post=triplets)
 
 
 # --- clustering ---------------------------------------------------------------
@@ -586,6 +683,13 @@ def _():
     a = pd.DataFrame({"key": ["k1", "k2"], "count": [1, 2]})
     b = pd.DataFrame({"key": ["k2", "k3"], "count": [5, 6]})
     return S(pyrepseq.multimerge, [a, b], "key", suffixes=["a", "b"], post=lambda r: canon_value(r.sort_index()))
+
+
+@spec("multimerge_inner", "io")
+def _():
+    a = pd.DataFrame({"key": ["k1", "k2"], "ca": [1, 2]})
+    b = pd.DataFrame({"key": ["k2", "k3"], "cb": [5, 6]})
+    return S(pyrepseq.multimerge, [a, b], "key", how="inner", post=lambda r: canon_value(r.sort_values("key").reset_index(drop=True)))
 
 
 @spec("multimerge_column", "io")
@@ -695,6 +799,9 @@ def _():
 
 
 NAMES = sorted(CATALOGUE)
+# calls that take seconds: executed in the enumerated sub-checks only, never drawn at random
+LIGHT = [n for n in NAMES if not CATALOGUE[n]["heavy"]]
+HEAVY = [n for n in NAMES if CATALOGUE[n]["heavy"]]
 
 
 def run_spec(name):
